@@ -15,6 +15,7 @@ RULES = {
     "R-14.1": "the ordered ctx.update() inputs of _digest equal the RFC 8945 4.3 composition under every valuation of (first, request MAC present); multi-message continuation starts with the length-prefixed prior MAC",
     "R-14.2": "validate digests the message with ARCOUNT-1 cut at the TSIG, performs error/time/key/algorithm checks before the MAC check, and every normal return is dominated by ctx.verify(rdata.mac); HMAC verify is a constant-time comparison of the (possibly truncated) digest",
     "R-14.3": "HMACTSig._hashes and mac_sizes agree (keys, hash function per algorithm name, digest or truncated size)",
+    "R-14.5": "every signer entry point hands the request MAC (and, for multi-message signing, the running context) it was given to dns.tsig.sign; an unsigned intermediate message of a multi-message sequence is digested whole (RFC 8945 5.3.1)",
     "R-14.4": "a TSIG that is not the last record / class ANY / in ADDITIONAL raises BadTSIG (a FormError); Message.to_wire signs the wire produced after write_header()",
 }
 
@@ -267,6 +268,21 @@ def run(model, rep, tier):
         rep.check(a == ["r.get_wire()", "self.keyring", "self.tsig[0]", "int(time.time())", "self.request_mac", "tsig_ctx", "multi"], "R-14.4", tw.qualname, where(tw, sc[0][1]),
                   "sign(wire, key, tsig template, now, request_mac, ctx, multi)", f"sign arguments are {a}", stmt="sign-args")
     rep.assume("hmac/hashlib implement HMAC and the named hash functions; rejection of every bit flip follows from HMAC and is not enumerated")
+    # ---------------------------------------------------------------- R-14.5
+    from rules.common import forwarded
+    n_fw = 0
+    for qn in ("dns.renderer.Renderer.add_tsig", "dns.renderer.Renderer.add_multi_tsig"):
+        f5 = model.func(qn)
+        for prm in ("request_mac", "ctx"):
+            if prm in f5.params():
+                n_fw += forwarded(model, rep, "R-14.5", f5, prm, lambda c, cal: cal.qualname == "dns.tsig.sign",
+                                  "a response signed without the request MAC is not bound to its request (RFC 8945 4.3.1); a continuation signed without the running context breaks the MAC chain")
+    rep.floor("R-14.5", n_fw, 3)
+    rd5 = model.func("dns.message._WireReader.read")
+    ups = [c for c in ast.walk(rd5.node) if isinstance(c, ast.Call) and src(c.func) == "self.message.tsig_ctx.update"]
+    rep.check(len(ups) == 1 and [src(a) for a in ups[0].args] == ["self.parser.wire"], "R-14.5", rd5.qualname, where(rd5, ups[0] if ups else rd5.node),
+              "an unsigned intermediate message is digested whole (self.parser.wire)", f"an unsigned intermediate message is digested as {[src(a) for c in ups for a in c.args]}, not as the whole message: "
+              "a conforming signed/unsigned/signed sequence fails with BadSignature and part of the unsigned message is not authenticated", stmt="unsigned-intermediate-digest")
     rep.meta["explanation"] = (
         "Ordered-effect projection of dns.tsig._digest: for each valuation of (first, request MAC present) the feasible CFG paths are walked and the arguments of ctx.update are "
         "flattened into typed tokens (struct formats expanded, concatenations split, locals substituted) and compared with the RFC 8945 4.3 table held in the checker - an independent "
@@ -274,6 +290,10 @@ def run(model, rep, tier):
 
 
 WITNESSES = [
+    {"id": "c14-add-tsig-drops-request-mac", "rule": "R-14.5", "file": "dns/renderer.py", "expect": "fires",
+     "old": "        tsig, _ = dns.tsig.sign(s, key, tsig[0], int(time.time()), request_mac)", "new": "        tsig, _ = dns.tsig.sign(s, key, tsig[0], int(time.time()))"},
+    {"id": "c14-unsigned-intermediate-without-id", "rule": "R-14.5", "file": "dns/message.py", "expect": "fires",
+     "old": "                self.message.tsig_ctx.update(self.parser.wire)", "new": "                self.message.tsig_ctx.update(self.parser.wire[2:])"},
     {"id": "c14-key-lookup-by-relative-name", "rule": "R-14.4", "file": "dns/message.py", "expect": "fires",
      "old": "                        key = self.keyring.get(absolute_name)", "new": "                        key = self.keyring.get(name)"},
     {"id": "c14-no-request-mac-length", "rule": "R-14.1", "file": "dns/tsig.py", "expect": "fires",
